@@ -360,8 +360,8 @@ def bad_frame(names):
 
 def client_role(res):
     """Pending client requests fail with a network error on Release/Abort; matching responses are delivered."""
-    for ender in ("release", "abort", "eof-close"):
-        for with_csm in (True, False):
+    for ender, with_csm, displaced in itertools.product(("release", "abort", "eof-close"), (True, False), (False, True)):
+        if True:
             h = Harness(False)
             try:
                 F = frames_alphabet()
@@ -373,7 +373,12 @@ def client_role(res):
                 r2 = h.ctx.request(m2, handle_blockwise=False)
                 h.loop.settle()
                 frames, _ = rc.split_tcp(b"".join(h.tr.written))
-                case = {"client": [ender, with_csm]}
+                case = {"client": [ender, with_csm, displaced]}
+                if displaced:
+                    # a second connection to the same host took this one's place in the pool (two first requests raced);
+                    # the displaced connection is still in use and its end must reach its requests all the same
+                    other = tcp.TcpConnection(h.pool, h.ctx.log, h.loop, is_server=False)
+                    h.pool._pool[("2001:db8::9", 45000)] = other
                 res.evaluations += 1
                 res.traces += 1
                 if len(frames) != 3:
@@ -394,9 +399,10 @@ def client_role(res):
                 ok2 = r2.response.done() and isinstance(r2.response.exception(), error.NetworkError)
                 if not ok1 or not ok2:
                     res.violate(Violation("pending-requests-on-connection-end", "delivered response / NetworkError for the rest",
-                                          [repr(r1.response), repr(r2.response)], "transports/tcp.py:_dispatch_error", case, key=ender))
-                res.outcomes.add(core.digest(("client", ender, with_csm, ok1, ok2)))
-                res.signatures.add(core.digest(("client", ender, with_csm)))
+                                          [repr(r1.response), repr(r2.response)], "transports/tcp.py:_dispatch_error", case,
+                                          key=ender + ("-displaced" if displaced else "")))
+                res.outcomes.add(core.digest(("client", ender, with_csm, displaced, ok1, ok2)))
+                res.signatures.add(core.digest(("client", ender, with_csm, displaced)))
             finally:
                 h.dispose()
 
